@@ -206,6 +206,10 @@ def main():
                 steps.append(["deliver", 0, {"reports": [{"status": "SUCCESS", "matched_frac": rng.choice([0, 0, 1, 2])}], "perm": "id"}])
                 if rng.random() < 0.4:
                     steps.append(["stream", "full"])
+                elif rng.random() < 0.4:
+                    # the bet is matched in full at the exchange, a cancel loses the race (FAILURE: bet taken) and is answered BEFORE the stream
+                    # reports the fill: the order still counts in full afterwards
+                    steps += [["xfill", 0, 2], ["req", "cancel", 0, None, True], ["deliver", 0, livegen.CLEAN], ["stream", "full"]]
         lcases.append({"strategies": 1, "limits": {"max_sel": lim, "max_trades": 10 ** 6, "max_live": 10 ** 6, "multi": False, "reset": 0.0, "place_reset": 0.0}, "steps": steps})
         lexp.append(exp)
     louts = run_impl_parallel("livelib", [{"job": "exec", "cases": ch} for ch in chunked(lcases, 10)], timeout=3600)
